@@ -93,12 +93,12 @@ func c19ClassifyRest(t c19Case, tree, shape, literal string, sh c19ShResult, bas
 		// (even under nullglob) or the component is looked up literally, so
 		// the interpreter finds nothing; bash globs (its result differs)
 		return "extglob-only-component-not-globbed"
-	case extOn && strings.Contains(shape, "**(") && !baNone && c19Subset(c19Matches(shL, shNone), baL) && len(c19Matches(shL, shNone)) < len(baL):
+	case extOn && strings.Contains(shape, "**(") && !baNone && !baKept && c19Subset(c19Matches(shL, shNone), baL) && len(c19Matches(shL, shNone)) < len(baL):
 		// "*" followed by a "*(...)" group: the two stars are read as "**"
 		// and the group's parentheses become literal characters, so the
 		// interpreter finds fewer names (usually none)
 		return "star-before-star-group"
-	case c19EscapedStarInLiteralComponent(t.Word) && (shKept || nullglob && len(shL) == 0) && !baNone:
+	case c19EscapedStarInLiteralComponent(t.Word) && (shKept || nullglob && len(shL) == 0) && !baNone && !baKept:
 		// (reached with the star quoted as '*') a path component without
 		// pattern syntax but with a quoted metacharacter, next to components
 		// that are patterns: the component is looked up with the quoting
